@@ -210,14 +210,12 @@ class Overlap(Family):
                 for u in f["graph"]:
                     owner[u] = j
 
-            def fetch_of(url):
-                for j, f in enumerate(fetches):
-                    if url in f["graph"] or url == f["start"] or any(e[0] == "r" and e[2] == url for e in f["graph"].values()):
-                        return j
-                return None
+            import contextvars
+
+            who = contextvars.ContextVar("fetch", default=None)      # which fetch (task) is asking: every gather()ed coroutine runs in its own context
 
             async def fake_single(url: str):
-                j = fetch_of(url)
+                j = who.get()
                 if j is None:
                     raise ConnectionError("stub: no such host")
                 conns[j].append(url)
@@ -230,7 +228,8 @@ class Overlap(Family):
                     return GeminiResponse(status=e[1], meta="text/gemini" if 20 <= e[1] < 30 else "meta", body="x" if 20 <= e[1] < 30 else None, url=url)
                 return GeminiResponse(status=e[1], meta=e[2], url=url)
 
-            async def one(client, f):
+            async def one(client, f, j):
+                who.set(j)
                 for _ in range(f["delay"]):
                     await asyncio.sleep(0)
                 try:
@@ -247,7 +246,7 @@ class Overlap(Family):
             async def go():
                 client = GeminiClient(max_redirects=case["max"], verify_ssl=False, trust_on_first_use=False)
                 client._get_single = fake_single  # type: ignore[method-assign]
-                return await asyncio.gather(*(one(client, f) for f in fetches))
+                return await asyncio.gather(*(one(client, f, j) for j, f in enumerate(fetches)))
 
             res = asyncio.run(go())
             return [{"r": r, "conns": c} for r, c in zip(res, conns)]
